@@ -237,14 +237,22 @@ func tablesChecker(cr *checkRun) {
 			add("html.EntitiesMap["+k+"]", ok, fmt.Sprintf("&%s; decodes to %q, replacement %q decodes to %q", k, want, e.valStr, got))
 		}
 	}
-	for _, t := range []struct{ pkg, name string }{{htmlP, "TextRevEntitiesMap"}, {xmlP, "TextRevEntitiesMap"}} {
+	for _, t := range []struct{ pkg, name string }{{htmlP, "TextRevEntitiesMap"}, {xmlP, "TextRevEntitiesMap"}, {xmlP, "AttrRevEntitiesMap"}} {
 		if es, err := tableEntries(prog, t.pkg, t.name); err != nil {
 			fail(shortName(t.pkg)+"."+t.name, err)
 		} else {
+			have := map[rune]bool{}
 			for _, e := range es {
 				c, _ := constant.Int64Val(e.key)
+				have[rune(c)] = true
 				got := html.UnescapeString(e.valStr)
 				add(fmt.Sprintf("%s.%s[%q]", shortName(t.pkg), t.name, rune(c)), got == string(rune(c)), fmt.Sprintf("replacement %q decodes to %q", e.valStr, got))
+			}
+			if t.pkg == xmlP {
+				// XML: a decoded & or < must be written back as a reference in text and in attribute values (well-formedness)
+				for _, c := range []rune{'<', '&'} {
+					add(fmt.Sprintf("%s.%s#has[%q]", shortName(t.pkg), t.name, c), have[c], fmt.Sprintf("the reverse table re-escapes %q", c))
+				}
 			}
 		}
 	}
